@@ -154,11 +154,18 @@ end CDy
 of this input's total power, drop the others.  It commutes with scalar factors, so it passes every
 test that uses one input at a time or inputs of comparable size, but it is not additive
 (Properties/C06.lean: `keepExcited_homogeneous`, `keepExcited_not_additive`).  No `Term` denotes
-it; the harness therefore probes additivity with terms of very different magnitude. -/
+it; the harness therefore probes additivity with terms of very different magnitude.
+
+Namespace `Old`: this is the model of a *defect class* (seeded defect C06-2), not of code that exists
+in /repo; no driver op runs it and the theorems about it are documentation of why the wide-magnitude
+probe exists, not evidence about hcipy. -/
+namespace Old
 
 def sumsq (x : List Rat) : Rat := (x.map (fun c => c * c)).sum
 
 def keepExcited (θ : Rat) (x : List Rat) : List Rat :=
   x.map (fun c => if θ * sumsq x < c * c then c else 0)
+
+end Old
 
 end HcipyVerif.OpIR
